@@ -24,6 +24,7 @@
 #include <fstream>
 #include <iostream>
 #include <map>
+#include <memory>
 #include <sstream>
 #include <string>
 #include <vector>
@@ -183,6 +184,132 @@ static void run_case(std::ostream& os, const Case& c, int rank, MPI_Comm comm)
   pmap(os, ri, "nb2");
 }
 
+
+// ---- object histories (argv: hist <file>): ONE RemoteIndices object re-used; case format see ml/C04_driver.ml -------------
+struct HOp { int kind; int slot, hintflag, b, ign, cmpinc, ws, wd, m; std::vector<std::vector<int> > hints; };
+struct HCase {
+  int P, two; unsigned long long seed; int M;
+  std::vector<std::vector<Set> > dsrc, ddst;      // [m][rank]
+  std::vector<int> slot0;
+  int ckind, cslot, chf, cinc; std::vector<std::vector<int> > chints;
+  std::vector<HOp> ops;
+};
+static bool rdhints(std::istream& is, int P, std::vector<std::vector<int> >& h)
+{
+  h.resize(P);
+  for (auto& l : h) if (!rdlist(is, l)) return false;
+  return true;
+}
+static bool parse_hist(const std::string& line, HCase& c)
+{
+  std::istringstream is(line);
+  if (!(is >> c.P >> c.two >> c.seed >> c.M)) return false;
+  if (c.P < 1 || c.P > 64 || c.M < 1 || c.M > 16) return false;
+  c.dsrc.assign(c.M, std::vector<Set>(c.P)); c.ddst.assign(c.M, std::vector<Set>(c.P));
+  for (int m = 0; m < c.M; ++m) for (int r = 0; r < c.P; ++r) if (!rdset(is, c.dsrc[m][r]) || !rdset(is, c.ddst[m][r])) return false;
+  int ns; if (!(is >> ns) || ns < 1 || ns > 8) return false;
+  c.slot0.resize(ns); for (auto& x : c.slot0) { is >> x; if (x < 0 || x >= c.M) return false; }
+  if (!(is >> c.ckind >> c.cslot >> c.chf >> c.cinc)) return false;
+  if (c.cslot < 0 || c.cslot >= ns) return false;
+  if (c.chf && !rdhints(is, c.P, c.chints)) return false;
+  int nops; if (!(is >> nops) || nops < 0 || nops > 1000) return false;
+  c.ops.resize(nops);
+  for (auto& o : c.ops) {
+    if (!(is >> o.kind)) return false;
+    switch (o.kind) {
+      case 1: is >> o.slot >> o.hintflag; if (o.slot < 0 || o.slot >= ns) return false; if (o.hintflag && !rdhints(is, c.P, o.hints)) return false; break;
+      case 2: if (!rdhints(is, c.P, o.hints)) return false; break;
+      case 3: is >> o.b; break;
+      case 4: break;
+      case 5: is >> o.ign >> o.cmpinc; break;
+      case 6: is >> o.slot >> o.ws >> o.wd >> o.m; if (o.slot < 0 || o.slot >= ns || o.m < 0 || o.m >= c.M) return false; break;
+      default: return false;
+    }
+  }
+  return !is.fail();
+}
+
+template<class G, class A, int N>
+static void run_hist(std::ostream& os, const HCase& c, int rank, MPI_Comm comm)
+{
+  typedef Dune::ParallelLocalIndex<A> LI;
+  typedef Dune::ParallelIndexSet<G, LI, N> PIS;
+  typedef Dune::RemoteIndices<PIS> RI;
+  const int ns = (int) c.slot0.size();
+  std::vector<PIS> S(ns), T(ns);
+  std::vector<Set> cs(ns), ct(ns);               // current contents of this rank's sets
+  for (int j = 0; j < ns; ++j) {
+    cs[j] = c.dsrc[c.slot0[j]][rank]; fill(S[j], cs[j]);
+    ct[j] = c.ddst[c.slot0[j]][rank]; fill(T[j], ct[j]);           // with one index set T[j] is unused (seqNo irrelevant)
+  }
+  auto tgt = [&](int j) -> PIS& { return c.two ? T[j] : S[j]; };
+  os << "r" << rank;
+  int cur = c.cslot;
+  std::unique_ptr<RI> ri;
+  if (c.ckind == 0) {
+    if (c.chf) ri.reset(new RI(S[cur], tgt(cur), comm, c.chints[rank], c.cinc != 0));
+    else if (c.cinc) ri.reset(new RI(S[cur], tgt(cur), comm, std::vector<int>(), true));
+    else ri.reset(new RI(S[cur], tgt(cur), comm));                  // both defaults
+  } else {
+    ri.reset(new RI());
+    if (c.chf) ri->setIndexSets(S[cur], tgt(cur), comm, c.chints[rank]); else ri->setIndexSets(S[cur], tgt(cur), comm);
+    ri->setIncludeSelf(c.cinc != 0);
+  }
+  pmpi_sched_reseed(c.seed);
+  for (const HOp& o : c.ops) {
+    switch (o.kind) {
+      case 1:
+        cur = o.slot;
+        if (o.hintflag) ri->setIndexSets(S[cur], tgt(cur), comm, o.hints[rank]); else ri->setIndexSets(S[cur], tgt(cur), comm);
+        break;
+      case 2: ri->setNeighbours(o.hints[rank]); break;
+      case 3: ri->setIncludeSelf(o.b != 0); break;
+      case 4: ri->free(); break;
+      case 5: {
+        os << " [b=" << (ri->isSynced() ? 1 : 0);
+        if (o.ign) ri->template rebuild<true>(); else ri->template rebuild<false>();
+        os << " s=" << (ri->isSynced() ? 1 : 0) << " gn=";
+        bool f = true; for (int q : ri->getNeighbours()) { os << (f ? "" : ",") << q; f = false; }
+        // an independent fresh object over the same sets, ring mode: operator== must hold
+        bool eq;
+        {
+          RI fresh(S[cur], tgt(cur), comm, std::vector<int>(), o.cmpinc != 0);
+          if (o.ign) fresh.template rebuild<true>(); else fresh.template rebuild<false>();
+          eq = (*ri == fresh) && (fresh == *ri);
+        }
+        os << " eq=" << (eq ? 1 : 0) << " ";
+        pmap(os, *ri, "nb");
+        // accessors: find() agrees with the iteration, the index sets are the ones given, a copy of a list equals the list
+        std::string bad;
+        int seen = 0;
+        for (int q = 0; q < c.P; ++q) {
+          auto it = ri->find(q);
+          if (it != ri->end()) { ++seen; if (it->first != q) bad += " BAD:find-key"; }
+        }
+        if (seen != ri->neighbours()) bad += " BAD:find-count";
+        if (&ri->sourceIndexSet() != &S[cur] || &ri->destinationIndexSet() != &tgt(cur)) bad += " BAD:index-set-accessors";
+        for (auto it = ri->begin(); it != ri->end(); ++it) {
+          typename RI::RemoteIndexList cp(*(it->second.first));
+          if (!(cp == *(it->second.first)) || cp.size() != it->second.first->size()) bad += " BAD:list-copy";
+          for (auto e = it->second.second->begin(); e != it->second.second->end(); ++e) { if (!(*e == *e) || (*e != *e)) bad += " BAD:remoteindex-eq"; }
+        }
+        os << bad << "]";
+        break;
+      }
+      case 6: {
+        if (o.ws) { resize_to(S[o.slot], cs[o.slot], c.dsrc[o.m][rank]); cs[o.slot] = c.dsrc[o.m][rank]; }
+        if (o.wd) {
+          if (c.two) { resize_to(T[o.slot], ct[o.slot], c.ddst[o.m][rank]); ct[o.slot] = c.ddst[o.m][rank]; }
+          else { resize_to(S[o.slot], cs[o.slot], cs[o.slot]); }          // one index set: the target IS the source
+        }
+        break;
+      }
+    }
+  }
+  pmpi_sched_reseed(0);
+  ri.reset();
+}
+
 static unsigned fnv(const std::string& s) { unsigned h = 2166136261u; for (unsigned char ch : s) { h ^= ch; h *= 16777619u; } return h; }
 
 int main(int argc, char** argv)
@@ -198,19 +325,29 @@ int main(int argc, char** argv)
   int gtype_env = !ge ? 0 : (std::string(ge) == "rot" ? -1 : std::atoi(ge));
   std::vector<MPI_Comm> sub(np + 1, MPI_COMM_NULL);
   for (int P = 1; P <= np; ++P) MPI_Comm_split(MPI_COMM_WORLD, rank < P ? 0 : MPI_UNDEFINED, rank, &sub[P]);
-  std::ifstream in(argv[1]);
+  const bool hist = argc >= 3 && std::string(argv[1]) == "hist";
+  std::ifstream in(argv[argc - 1]);
   std::string line;
   while (std::getline(in, line)) {
     ++g_case;
-    Case c;
-    bool ok = parse(line, c) && c.P <= np;
+    Case c; HCase hc;
+    bool ok = hist ? (parse_hist(line, hc) && hc.P <= np) : (parse(line, c) && c.P <= np);
+    if (hist) c.P = hc.P;
     std::string mine;
     if (ok && rank < c.P) {
       std::ostringstream os;
       alarm(tmo);
       int gt = gtype_env;
       if (gt < 0) gt = 1 + (int) (fnv(line) % 5u);
-      switch (gt) {
+      if (hist) switch (gt) {
+        case 1: run_hist<long, AttrL, 3>(os, hc, rank, sub[c.P]); break;
+        case 2: run_hist<unsigned long long, Attr, 8>(os, hc, rank, sub[c.P]); break;
+        case 3: run_hist<Dune::bigunsignedint<55>, Attr, 8>(os, hc, rank, sub[c.P]); break;
+        case 4: run_hist<Dune::bigunsignedint<64>, Attr, 8>(os, hc, rank, sub[c.P]); break;
+        case 5: run_hist<Dune::bigunsignedint<100>, Attr, 8>(os, hc, rank, sub[c.P]); break;
+        default: run_hist<int, Attr, 8>(os, hc, rank, sub[c.P]); break;
+      }
+      else switch (gt) {
         case 1: run_case<long, AttrL, 3>(os, c, rank, sub[c.P]); break;
         case 2: run_case<unsigned long long, Attr, 8>(os, c, rank, sub[c.P]); break;
         case 3: run_case<Dune::bigunsignedint<55>, Attr, 8>(os, c, rank, sub[c.P]); break;
